@@ -98,6 +98,19 @@ func TestC11(t *testing.T) {
 		}
 		synctest.Test(t, func(t *testing.T) { c12Sim(t, run, sc) })
 	}
+	// ... and sequences in which one save failed (the temporary path was unusable for a while) and
+	// the operator repeated the command afterwards: the file a restart reads is current again
+	for k := 0; k < run.N(24, 600); k++ {
+		sc := c12Gen(run.Rand(n+1000+k), 4*k+1, 1<<30, 0, 0)
+		if len(sc.History) > 1 {
+			last := &sc.History[len(sc.History)-1]
+			*last = Cmd{Kind: pick(run.Rand(n+2000+k), []string{"stop", "pause", "stop"}), Svc: "s0", DrainTO: time.Second, MaxPause: 700 * time.Millisecond, Msg: "closed for the evening"}
+		}
+		if !run.Mine(n+1000+k, sc) {
+			continue
+		}
+		synctest.Test(t, func(t *testing.T) { c12Sim(t, run, sc) })
+	}
 }
 
 // probeView: what the targets see of the health-check settings (path and cadence), per target,
